@@ -942,3 +942,156 @@ pub fn drive_pwint(seed: u64, rounds: usize, extra: &str, sink: &mut Sink) -> us
     }
     n
 }
+
+// ===================================================================== C04 / C05 constrained spline
+
+fn jknots(ks: &[Knot]) -> Value {
+    Value::Array(ks.iter().map(|k| json!([jb(k.x), jb(k.y)])).collect())
+}
+
+/// strictly increasing abscissae in several regimes
+fn spline_xs(rng: &mut Rng, n: usize) -> Vec<f64> {
+    let mut xs: Vec<f64> = Vec::with_capacity(n);
+    let base = match rng.below(6) {
+        0 => 0.0,
+        1 => rng.float_exp(-3, 3),
+        2 => 1e3 * rng.nice(),
+        3 => -1e6,
+        4 => 1e6 * (1.0 + rng.unit()),
+        _ => rng.float_exp(-20, 20),
+    };
+    let scale = match rng.below(5) {
+        0 => 1.0,
+        1 => rng.float_exp(-30, -10).abs(),
+        2 => rng.float_exp(5, 20).abs(),
+        _ => rng.float_exp(-3, 3).abs(),
+    };
+    let mode = rng.below(4);
+    let mut x = base;
+    for i in 0..n {
+        xs.push(x);
+        let step = match mode {
+            0 => scale,                                    // even
+            1 => scale * 2f64.powi(i as i32),              // geometric
+            2 => scale * (0.001 + rng.unit()),             // uneven
+            _ => if rng.below(3) == 0 { scale * 1e-6 } else { scale }, // clustered
+        };
+        let nx = x + step;
+        x = if nx > x { nx } else { x.next_up() };
+    }
+    xs
+}
+
+fn spline_ys(rng: &mut Rng, n: usize) -> Vec<f64> {
+    let yscale = match rng.below(5) {
+        0 => rng.float_exp(-40, -20).abs(), // tiny ordinates: secant products far below epsilon
+        1 => rng.float_exp(10, 30).abs(),
+        _ => rng.float_exp(-3, 3).abs(),
+    };
+    let y0 = if rng.bool() { 0.0 } else { rng.float_exp(-2, 2) * yscale };
+    let mut ys: Vec<f64> = Vec::with_capacity(n);
+    let shape = rng.below(7);
+    let mut y = y0;
+    for i in 0..n {
+        ys.push(y);
+        let d = match shape {
+            0 => rng.unit() + 0.01,                                  // monotone increasing
+            1 => -(rng.unit() + 0.01),                               // monotone decreasing
+            2 => if i % 2 == 0 { rng.unit() + 0.1 } else { -(rng.unit() + 0.1) }, // oscillating
+            3 => if rng.below(3) == 0 { 0.0 } else { rng.unit() },   // plateaux inside a rise (terraces)
+            4 => 1.0,                                                // collinear on an even grid; else nearly
+            5 => if rng.below(4) == 0 { 0.0 } else { rng.unit() - 0.5 },
+            _ => (rng.unit() - 0.3) * if rng.below(5) == 0 { 1e-9 } else { 1.0 }, // tiny secants next to large
+        };
+        y += d * yscale;
+    }
+    ys
+}
+
+pub fn drive_spline(seed: u64, n: usize, sink: &mut Sink) -> usize {
+    let mut rng = Rng::new(seed);
+    let mut nontrivial = 0;
+    for it in 0..n {
+        let len = 3 + rng.size(6, 10, 4) as usize;
+        let xs = spline_xs(&mut rng, len);
+        let mut ys = spline_ys(&mut rng, len);
+        if it % 7 == 0 {
+            // exactly collinear, or collinear plus a few ulps
+            let (a, b) = (rng.nice(), rng.nice());
+            for (y, &x) in ys.iter_mut().zip(xs.iter()) {
+                *y = a * x + b;
+                if it % 14 == 0 && rng.bool() {
+                    *y = y.next_up();
+                }
+            }
+        }
+        let ks: Vec<Knot> = xs.iter().zip(ys.iter()).map(|(&x, &y)| Knot { x, y }).collect();
+        let r = guarded(|| constrained_spline(&ks));
+        let (ends, coef, pan) = match &r {
+            Ok(p) => (ends_of(p), p.segments.iter().map(|s| jbs(&s.poly.0)).collect::<Vec<_>>(), false),
+            Err(_) => (vec![], vec![], true),
+        };
+        nontrivial += 1;
+        sink.ev(json!({"ev":"spline","knots":jknots(&ks),"ends":jbs(&ends),"coef":coef,"panic":pan}));
+    }
+    nontrivial
+}
+
+// ===================================================================== C06 linear
+
+pub fn drive_linear(seed: u64, n: usize, sink: &mut Sink) -> usize {
+    let mut rng = Rng::new(seed);
+    let mut nontrivial = 0;
+    let eps = f64::EPSILON;
+    for it in 0..n {
+        let len = 2 + rng.size(6, 28, 5) as usize;
+        let base = *rng.pick(&[0.0, 0.25, 0.5, 1.0, -1.0, 1e6, -3.0, 1e-3]);
+        let mut x = base;
+        let mut ks: Vec<Knot> = Vec::with_capacity(len);
+        let regular = it % 3 == 0;
+        for _ in 0..len {
+            ks.push(Knot { x, y: if rng.below(4) == 0 { rng.nice() } else { rng.float_exp(-4, 4) } });
+            let gap = if regular {
+                match rng.below(4) {
+                    0 => eps,
+                    1 => eps.next_up(),
+                    2 => 2.0 * eps,
+                    _ => rng.float_exp(-8, 4).abs(),
+                }
+            } else {
+                match rng.below(10) {
+                    0 => 0.0,
+                    1 => eps / 2.0,
+                    2 => eps.next_down(),
+                    3 => eps,
+                    4 => eps.next_up(),
+                    5 => 0.6 * eps,
+                    6 => -rng.float_exp(-3, 3).abs(), // out of order
+                    7 => 2.0 * eps,
+                    _ => rng.float_exp(-8, 4).abs(),
+                }
+            };
+            x += gap;
+        }
+        let r = guarded(|| linear(&ks));
+        let (ends, coef, pan, ts, fts) = match &r {
+            Ok(p) => {
+                let ends = ends_of(p);
+                let mut ts: Vec<f64> = ks.iter().map(|k| k.x).collect();
+                for w in ks.windows(2) {
+                    ts.push(w[0].x / 2.0 + w[1].x / 2.0);
+                }
+                ts.push(ks[0].x - 1.0);
+                ts.push(ks[len - 1].x + 1.0);
+                let fts: Vec<f64> = ts.iter().map(|&t| p.evaluate(t)).collect();
+                (ends, p.segments.iter().map(|s| jbs(&s.poly.0)).collect::<Vec<_>>(), false, ts, fts)
+            }
+            Err(_) => (vec![], vec![], true, vec![], vec![]),
+        };
+        if !regular {
+            nontrivial += 1;
+        }
+        sink.ev(json!({"ev":"linear","knots":jknots(&ks),"ends":jbs(&ends),"coef":coef,"panic":pan,"ts":jbs(&ts),"fts":jbs(&fts)}));
+    }
+    nontrivial
+}
